@@ -41,7 +41,7 @@ Section Parallel.
   Variable T : Type.
   Variable ltb : T -> T -> bool.
   Variable zero : T.
-  Variable round7 : T -> T.
+  Variable roundp : nat -> T -> T.
   Variable smul : bool -> T -> T.
 
   Notation ind := (ind T).
@@ -78,7 +78,7 @@ Section Parallel.
     match st_kind s with
     | KStart =>
         {| f_ind := Some {| ivec := ivec i; icosts := icosts i; isigned := isigned i; istate := InProgress;
-                            ifeas := feasible_of ltb zero (ifeas i) (e_cons e (ivec i)) |};
+                            ifeas := feasible_of ltb zero (ifeas i) (e_cons e (ivec i)); iprec := iprec i |};
            f_call := None; f_failed := None; f_store := None; f_pend := None |}
     | KObj =>
         let c := {| c_no := ncalls; c_id := st_id s; c_att := st_att s; c_vec := ivec i |} in
@@ -88,8 +88,8 @@ Section Parallel.
         match pd with
         | Some (Ok costs, _) =>
             {| f_ind := Some {| ivec := ivec i; icosts := costs;
-                                isigned := Some (signed_costs round7 smul (e_signs e) costs (ifeas i));
-                                istate := Evaluated; ifeas := ifeas i |};
+                                isigned := Some (signed_costs roundp smul (iprec i) (e_signs e) costs (ifeas i));
+                                istate := Evaluated; ifeas := ifeas i; iprec := iprec i |};
                f_call := None; f_failed := None; f_store := None; f_pend := None |}
         | _ => no_effect
         end
@@ -99,7 +99,7 @@ Section Parallel.
         match pd with
         | Some (Transient, _) =>
             {| f_ind := Some {| ivec := ivec i; icosts := icosts i; isigned := isigned i; istate := istate i;
-                                ifeas := false |};
+                                ifeas := false; iprec := iprec i |};
                f_call := None; f_failed := Some (mk_failed (ivec i)); f_store := None; f_pend := None |}
         | _ => no_effect
         end
@@ -107,7 +107,7 @@ Section Parallel.
         match pd with
         | Some (Transient, v) =>
             {| f_ind := Some {| ivec := v; icosts := icosts i; isigned := isigned i; istate := Empty;
-                                ifeas := ifeas i |};
+                                ifeas := ifeas i; iprec := iprec i |};
                f_call := None; f_failed := None; f_store := None; f_pend := None |}
         | _ => no_effect
         end
@@ -152,7 +152,8 @@ Section Parallel.
         | Transient =>
             mkstep id att KFail :: mkstep id att KReroll ::
             attempt_steps e id fuel' (S att)
-              {| ivec := e_reroll e c; icosts := icosts i; isigned := isigned i; istate := Empty; ifeas := false |}
+              {| ivec := e_reroll e c; icosts := icosts i; isigned := isigned i; istate := Empty; ifeas := false;
+                 iprec := iprec i |}
         | Fatal _ => []
         end
     end.
